@@ -244,3 +244,14 @@ CHECKS = {
         'technique': 'symbolic execution of the real Python source + SMT (z3 QF_LRA/NRA), witness replay',
     },
 }
+
+SEQ_NOTE = (' Call sequences (session 4): one symbolic run calls the function on ellipsoid (a, 1/f), then on (a2, 1/f2), then on the first one '
+            'again with the same symbolic input (long-lived objects, and short-lived objects under an identity model in which id() of an '
+            'object may equal that of a dead predecessor); result 3 = result 1 and result 2 = result 1 with the ellipsoid replaced are '
+            'decided as identities, together with the branch conditions.')
+ARG_NOTE = (' Angle-class arguments: the function is run on objects of each of the five angle classes and on their own dec() values in one '
+            'path; outputs are proved to be identical terms.')
+for _k in ('C01', 'C02', 'C03', 'C04', 'C05'):
+    CHECKS[_k]['text'] += SEQ_NOTE
+for _k in ('C01', 'C19'):
+    CHECKS[_k]['text'] += ARG_NOTE
